@@ -1,12 +1,96 @@
-(* C04 (supervisor core) - INTERIM statement file: the full simulation theorem for mon_C04 is being
-   proved in Sup/RelC04.v; until it lands, this file states what is already machine-checked for every
-   accepted history of the Sup model: the observer's picture (on which the monitor holds_C04 is
-   evaluated) agrees with the model state. *)
+(* C04  Project completion: Run() ends when all are terminal, with the right exit code.
+   (level: PROOF over the supervisor model Sup, PARTIAL: two decidable side conditions on the history,
+   both shown necessary by machine-checked counterexamples; NO window hypothesis of known_findings.json.)
+   This file contains only statements; every proof is `exact <lemma>` (lemmas: Sup/RelC04.v).
+
+   What the monitor holds_C04 / mon_C04 (Sup/Monitors.v) checks, in words.  The observer folds the history
+   into facts per instance: `o_alive` (a command was launched by ELaunch true and no ECmdExit followed),
+   `o_byapi` (the instance was created inside a StartProcess/RestartProcess call), `o_sd_victim` (when
+   its last command exited it was already in the snapshot of some ShutDownProject), and globally
+   `o_triggers` (one entry (instance, code, victim?) per exit_trigger event: exit_on_failure with a
+   non-zero code, exit_on_end, exit_on_skipped with code 1) and `o_api_sd_first` (a shutdown requested
+   through the API took its snapshot before any exit_trigger).  At every event `ERunReturn c`
+   (Run() returns c) it demands:
+     (1) no instance has a command alive, except instances started through the API;
+     (2) if there was no exit_trigger, c = 0; otherwise c is the code of some exit_trigger, and - unless
+         an API shutdown came first or every trigger was itself a shutdown victim - of a trigger that
+         was NOT a victim of a shutdown.
+   All other events pass.  (`C04_declarative` below states exactly this, position by position.)
+   The liveness half of the property text ("it does return", "never waits forever") is not a property of
+   finite accepted histories; it is covered by the monitor-only test of checks/C04.py (quiescence).
+
+   The side condition  C04_disciplined cs evs = true  (Sup/RelC04.v, decidable, computed by folding a
+   small ghost record along the history) says:
+     (a) g_badb = false: every `EBegin i` (goroutine of instance i starts) is preceded by an `ESpawn i`
+         (waitGroup.Add(1) + go).  The model itself does not force this order.
+     (b) g_badsd = false: no ShutDownProject called from OUTSIDE a process goroutine (API) takes its
+         snapshot (EShutdownOrder) at a time when some exit_trigger has been logged but no triggering
+         goroutine has yet moved past its exit_trigger trace point (i.e. exitCodeOnce.Do has not run). *)
 From Coq Require Import List ZArith NArith Bool.
 From PC.Base Require Import Assoc.
-From PC.Sup Require Import Model Monitors RelCore Agreement RelC02.
+From PC.Sup Require Import Model Monitors Check RelC04.
+Import ListNotations.
 
-Theorem C04_observer_agrees_with_model : forall cs ord evs s,
-  accept (init cs ord) evs = Some s -> Rc cs s (final_obs cs evs).
-Proof. exact sup_agreement. Qed.
-Print Assumptions C04_observer_agrees_with_model.
+(* for ALL configurations (any dependency graph, policies, exit_on_* settings, several triggers),
+   both shutdown modes, and ALL accepted histories (all interleavings, exit codes, API calls): *)
+Theorem C04_main_partial : forall cs ord evs s,
+  accept (init cs ord) evs = Some s -> C04_disciplined cs evs = true -> holds_C04 cs evs = true.
+Proof. exact C04_main_partial_lemma. Qed.
+Print Assumptions C04_main_partial.
+
+(* the same, with the monitor unfolded: at every position k of the history that is a Run() return *)
+Theorem C04_declarative : forall cs ord evs s,
+  accept (init cs ord) evs = Some s -> C04_disciplined cs evs = true ->
+  forall k th c, nth_error evs k = Some (th, ERunReturn c) ->
+    let o := obs_at cs evs k in
+    (forall x, In x (vals (oi o)) -> o_alive x = true -> o_byapi x = true) /\
+    (o_triggers o = [] -> c = 0%Z) /\
+    (o_triggers o <> [] ->
+       exists t, In t (o_triggers o) /\ snd (fst t) = c /\
+                 (snd t = false \/ o_api_sd_first o = true \/ forall t', In t' (o_triggers o) -> snd t' = true)).
+Proof. exact C04_declarative_lemma. Qed.
+Print Assumptions C04_declarative.
+
+(* Without side condition (a) the statement is false of the model, in a history that goes through none
+   of the known windows: a goroutine that was never added to the wait group still has its command
+   alive when Run() returns (10 events). *)
+Theorem C04_refuted_nospawn :
+  exists cs ord evs s, accept (init cs ord) evs = Some s /\ no_windows cs evs = true /\ holds_C04 cs evs = false.
+Proof. exact C04_refuted_nospawn_lemma. Qed.
+Print Assumptions C04_refuted_nospawn.
+
+(* Without side condition (b) the exit-code clause is false of the model (and, by the same schedule, of
+   the code), again outside every known window and with (a) satisfied: process A (exit_on_failure) fails
+   with 3 and is parked between its exit_trigger trace point and exitCodeOnce.Do; a shutdown requested
+   through the API kills B (exit_on_failure), which exits with 7 and runs exitCodeOnce.Do first; Run()
+   returns 7, the code of a process that was merely terminated by a shutdown (84 events). *)
+Theorem C04_refuted_exit_code :
+  exists cs ord evs s, accept (init cs ord) evs = Some s /\ no_windows cs evs = true /\
+                       g_badb (ghost_of cs evs) = false /\ holds_C04 cs evs = false.
+Proof. exact C04_refuted_code_lemma. Qed.
+Print Assumptions C04_refuted_exit_code.
+
+(* non-vacuity: a recorded history of the implementation (66 events: one exit_on_failure process that fails
+   to start, triggers the shutdown, Run() returns 1, and a second shutdown through the API afterwards)
+   is accepted by the model, satisfies the side condition, contains a Run() return, and the monitor holds *)
+Definition ex_conf : amap pconf :=
+   [(0%N, mkConf [] PExitOnFailure 1 0%N false false false false true false false)].
+Definition ex_evs : list (tid * event) := [
+  (1%N, EApiBegin OpRun); (1%N, ERegGet 0%N None); (1%N, ENewInst 1%N 0%N); (1%N, EState 1%N SPending);
+  (1%N, ERegAdd 1%N 0%N); (1%N, ESpawn 1%N 0%N); (1%N, EResume); (1%N, ERunSpawned); (2%N, EBegin 1%N);
+  (2%N, EResume); (2%N, ERunChecked false); (2%N, EResume); (2%N, EProcEnd 1%N SError); (1%N, EResume);
+  (2%N, EResume); (2%N, EState 1%N SError); (2%N, EProcEnded 1%N SError); (2%N, EResume);
+  (2%N, ERunReturned 1%Z); (2%N, EResume); (2%N, EDoneAdd 1%N); (2%N, EInstDone); (2%N, EResume);
+  (2%N, EExitTrigger 1%Z); (2%N, EResume); (2%N, EShutdownCall); (2%N, EResume); (2%N, EShutdownBegin);
+  (2%N, EResume); (2%N, EShutdownOrder [1%N]); (2%N, EStopEnter 1%N true); (2%N, EResume);
+  (2%N, EStopReturn 1%N); (2%N, EResume); (2%N, EShutdownEnd); (2%N, EResume); (2%N, EShutdownUnlocked);
+  (2%N, EResume); (2%N, EExitCodeSet 1%Z); (3%N, EApiBegin OpShutdown); (2%N, EResume); (2%N, EInstExit);
+  (3%N, EResume); (3%N, EShutdownCall); (3%N, EResume); (3%N, EShutdownBegin); (3%N, EResume);
+  (3%N, EShutdownOrder [1%N]); (3%N, EStopEnter 1%N true); (3%N, EResume); (3%N, EStopReturn 1%N);
+  (3%N, EResume); (3%N, EShutdownEnd); (2%N, EResume); (2%N, EWgDone); (1%N, ERunReturn 1%Z); (3%N, EResume);
+  (3%N, EShutdownUnlocked); (2%N, ERegDel 1%N); (2%N, EInstGone); (3%N, EResume); (3%N, EApiReturn true);
+  (3%N, EResume); (1%N, EResume); (1%N, EApiReturn false); (1%N, EResume)].
+Example C04_nonvacuous :
+  accepted_hist ex_conf false ex_evs = true /\ C04_disciplined ex_conf ex_evs = true /\
+  length ex_evs = 66 /\ In (1%N, ERunReturn 1%Z) ex_evs /\ holds_C04 ex_conf ex_evs = true.
+Proof. repeat split; try (vm_compute; reflexivity). vm_compute. tauto. Qed.
